@@ -158,7 +158,103 @@ func runC05(c *Ctx) {
 }
 
 // c5BulkCount: parent = one Range over the argument with a closure; closure = one elem op on target per value, counter++ on true, returns true.
+// c5BulkCountLoop: the bulk operation written as a loop over a snapshot of the argument set (for _, v := range
+// set.Slice()): a complete forward iteration over the result of one Slice() call on the argument, exactly one
+// elemOp(receiver, element) per iteration, a counter that starts at 0, grows by one exactly on the operation's true
+// edge, and is what is returned. ok=false with why=="" means: not this form.
+func c5BulkCountLoop(c *Ctx, fi *FuncInfo, ps []*Path, elemOp string, target *Term) (isForm, ok bool, why string) {
+	loops := findLoops(ps)
+	if len(loops) != 1 {
+		return false, false, ""
+	}
+	it := c14IterOf(loops[0])
+	if it == nil || it.kind != "slice" || it.over == nil || it.over.Op != "call" || !strings.HasSuffix(it.over.Sym, ".Slice") || len(it.over.Args) != 1 || !isParam(stripIface(it.over.Args[0]), 1) {
+		return false, false, ""
+	}
+	isForm, ok = true, true
+	if !it.full {
+		return true, false, "the loop does not visit every element of the snapshot"
+	}
+	acc := it.accPhis()
+	if len(acc) != 1 {
+		return true, false, "expected exactly one counter carried through the loop"
+	}
+	cnt := acc[0]
+	lv := it.li.LV[cnt]
+	if !it.li.Init[cnt].IsConst("0") {
+		return true, false, "the counter does not start at 0"
+	}
+	for _, p := range ps {
+		n := 0
+		for i := range p.Events {
+			e := &p.Events[i]
+			switch {
+			case e.Kind == "call" && e.Name == it.over.Sym:
+				n++
+			case e.Kind == "call" && e.Name == elemOp:
+			case e.Kind == "call" && e.Name == "builtin.len":
+			case e.Kind == "store" && e.Addr.Op == "alloc":
+			case e.Kind == "mkclosure" && strings.HasSuffix(e.Val.Sym, "$bound"):
+			default:
+				return true, false, "unexpected effect " + e.String()
+			}
+		}
+		if n != 1 {
+			return true, false, "the argument set is not snapshotted exactly once"
+		}
+	}
+	for k, p := range it.li.Back {
+		var ops []*Event
+		for i := p.LoopAt[it.li.Hdr]; i < len(p.Events); i++ {
+			if e := &p.Events[i]; e.Kind == "call" && e.Name == elemOp {
+				ops = append(ops, e)
+			}
+		}
+		if len(ops) != 1 || len(ops[0].Args) != 2 || ops[0].Args[0].Key() != target.Key() || !it.isElem(ops[0].Args[1]) {
+			return true, false, "an iteration does not perform exactly one " + elemOp + "(element) on the receiver"
+		}
+		edge := ""
+		for _, cd := range p.Conds {
+			if cd.NEv < p.LoopAt[it.li.Hdr] {
+				continue
+			}
+			t, pol := stripNot(cd.T, cd.Pol)
+			if t.Key() == ops[0].Res.Key() {
+				edge = map[bool]string{true: "true", false: "false"}[pol]
+			}
+		}
+		next := it.li.Nexts[cnt][k]
+		d := ToPoly(next).Add(ToPoly(lv), -1)
+		dc, isC := d.IsConst()
+		switch {
+		case !isC:
+			return true, false, "the counter is not advanced by a constant"
+		case edge == "true" && dc != 1:
+			return true, false, "a successful operation is not counted"
+		case edge == "false" && dc != 0:
+			return true, false, "an operation that changed nothing is counted"
+		case edge == "":
+			return true, false, "the count does not depend on the operation's result"
+		}
+	}
+	for _, p := range it.li.Exit {
+		if p.End == EndReturn && (len(p.Rets) != 1 || p.Rets[0].Key() != lv.Key()) {
+			return true, false, "does not return the counter"
+		}
+	}
+	return true, true, ""
+}
+
 func c5BulkCount(c *Ctx, rule string, fi *FuncInfo, ps []*Path, elemOp string, target *Term) {
+	if isForm, okL, whyL := c5BulkCountLoop(c, fi, ps, elemOp, target); isForm {
+		c.R.Decide(okL, rule, fi.Name, "count", c.pos(fi), "counts exactly the per-element successes over a complete iteration of a snapshot of the argument", whyL)
+		// the snapshot is then part of the argument: Slice of both implementations must list exactly the members
+		if _, have := c.R.Rules["slice-helper"]; !have {
+			c.R.Rule("slice-helper", "Slice of both Set implementations, on whose snapshot the bulk operation iterates, appends every enumerated member exactly once to a slice that starts empty (C03's rows, re-run here)", 2)
+			c03SliceHelper(c, "slice-helper")
+		}
+		return
+	}
 	ok, why := len(ps) == 1, "the method branches"
 	if ok {
 		p := ps[0]
